@@ -95,7 +95,8 @@ def handle (z : St) (args : List String) : Option (St × Proto.Out) :=
     let sn' := match aget z.sn id with
       | some n => if n.alive then aset z.sn id { n with props := aset n.props k v } else z.sn
       | none => z.sn
-    let ghost' := if sAliveNode z id then z.ghost else sinsert z.ghost id
+    -- a write to an id that is not alive is refused (repaired code): nothing becomes a ghost
+    let ghost' := z.ghost
     pure ({ z with st := z.st.setNodeProp id k v, sn := sn', ghost := ghost' }, { model := "-" })
   | ["rnp", id, k] => do
     let id ← id.toNat?
@@ -114,7 +115,7 @@ def handle (z : St) (args : List String) : Option (St × Proto.Out) :=
       | some e => if e.alive then aset z.se id { e with props := aset e.props k v } else z.se
       | none => z.se
     let alive := match aget z.se id with | some e => e.alive | none => false
-    pure ({ z with st := z.st.setEdgeProp id k v, se := se', ghostE := if alive then z.ghostE else sinsert z.ghostE id }, { model := "-" })
+    pure ({ z with st := z.st.setEdgeProp id k v, se := se', ghostE := z.ghostE }, { model := "-" })
   | ["al", id, l] => do
     let id ← id.toNat?
     let l ← l.toNat?
